@@ -135,21 +135,77 @@ impl Param {
     /// statements preparing caller-side variables, argument expression, Debug string of the value
     fn arg(self, k: usize) -> (String, String, String) {
         match self {
-            Param::U8 => (String::new(), format!("{}u8", 10 + k), format!("{}", 10 + k)),
-            Param::I32 => (String::new(), format!("-{}i32", 100 + k), format!("-{}", 100 + k)),
+            Param::U8 => (
+                String::new(),
+                format!("{}u8", 10 + k),
+                format!("{}", 10 + k),
+            ),
+            Param::I32 => (
+                String::new(),
+                format!("-{}i32", 100 + k),
+                format!("-{}", 100 + k),
+            ),
             Param::Str => (String::new(), format!("\"str{k}\""), format!("\"str{k}\"")),
-            Param::String => (String::new(), format!("String::from(\"s{k}\")"), format!("\"s{k}\"")),
-            Param::VecU8 => (String::new(), format!("vec![{k}u8, {}]", k + 1), format!("[{k}, {}]", k + 1)),
-            Param::RefU32 => (format!("let r{k}: u32 = {};\n", 1000 + k), format!("&r{k}"), format!("{}", 1000 + k)),
-            Param::Slice => (String::new(), format!("&[{k}u8, 9][..]"), format!("[{k}, 9]")),
-            Param::MutU32 => (format!("let mut m{k}: u32 = {};\n", 2000 + k), format!("&mut m{k}"), format!("{}", 2000 + k)),
-            Param::MutVec => (format!("let mut m{k}: Vec<u8> = vec![{k}u8];\n"), format!("&mut m{k}"), format!("[{k}]")),
-            Param::MutStrRef => (format!("let mut m{k}: &'static str = \"before{k}\";\n"), format!("&mut m{k}"), format!("\"before{k}\"")),
-            Param::Tuple => (String::new(), format!("({}u8, String::from(\"t{k}\"))", 50 + k), format!("({}, \"t{k}\")", 50 + k)),
-            Param::OptRef => (format!("let r{k}: u32 = {};\n", 3000 + k), format!("Some(&r{k})"), format!("Some({})", 3000 + k)),
-            Param::TraitGeneric => (String::new(), format!("{}u16", 300 + k), format!("{}", 300 + k)),
-            Param::MethodGeneric => (String::new(), format!("-{}i64", 5000 + k), format!("-{}", 5000 + k)),
-            Param::ImplTrait => (String::new(), format!("{}u64", 4000 + k), format!("{}", 4000 + k)),
+            Param::String => (
+                String::new(),
+                format!("String::from(\"s{k}\")"),
+                format!("\"s{k}\""),
+            ),
+            Param::VecU8 => (
+                String::new(),
+                format!("vec![{k}u8, {}]", k + 1),
+                format!("[{k}, {}]", k + 1),
+            ),
+            Param::RefU32 => (
+                format!("let r{k}: u32 = {};\n", 1000 + k),
+                format!("&r{k}"),
+                format!("{}", 1000 + k),
+            ),
+            Param::Slice => (
+                String::new(),
+                format!("&[{k}u8, 9][..]"),
+                format!("[{k}, 9]"),
+            ),
+            Param::MutU32 => (
+                format!("let mut m{k}: u32 = {};\n", 2000 + k),
+                format!("&mut m{k}"),
+                format!("{}", 2000 + k),
+            ),
+            Param::MutVec => (
+                format!("let mut m{k}: Vec<u8> = vec![{k}u8];\n"),
+                format!("&mut m{k}"),
+                format!("[{k}]"),
+            ),
+            Param::MutStrRef => (
+                format!("let mut m{k}: &'static str = \"before{k}\";\n"),
+                format!("&mut m{k}"),
+                format!("\"before{k}\""),
+            ),
+            Param::Tuple => (
+                String::new(),
+                format!("({}u8, String::from(\"t{k}\"))", 50 + k),
+                format!("({}, \"t{k}\")", 50 + k),
+            ),
+            Param::OptRef => (
+                format!("let r{k}: u32 = {};\n", 3000 + k),
+                format!("Some(&r{k})"),
+                format!("Some({})", 3000 + k),
+            ),
+            Param::TraitGeneric => (
+                String::new(),
+                format!("{}u16", 300 + k),
+                format!("{}", 300 + k),
+            ),
+            Param::MethodGeneric => (
+                String::new(),
+                format!("-{}i64", 5000 + k),
+                format!("-{}", 5000 + k),
+            ),
+            Param::ImplTrait => (
+                String::new(),
+                format!("{}u64", 4000 + k),
+                format!("{}", 4000 + k),
+            ),
         }
     }
     fn is_mut(self) -> bool {
@@ -222,14 +278,26 @@ impl TraitCase {
         if self.method_generic() {
             generics.push("U: 'static + std::fmt::Debug".to_string());
         }
-        let g = if generics.is_empty() { String::new() } else { format!("<{}>", generics.join(", ")) };
+        let g = if generics.is_empty() {
+            String::new()
+        } else {
+            format!("<{}>", generics.join(", "))
+        };
         let params: String = self
             .params
             .iter()
             .enumerate()
             .map(|(k, p)| {
-                let ty = if matches!(self.ret, Ret::RefParam(j) if j == k) { "&'a u32" } else { p.ty() };
-                if with_names { format!(", a{k}: {ty}") } else { format!(", {ty}") }
+                let ty = if matches!(self.ret, Ret::RefParam(j) if j == k) {
+                    "&'a u32"
+                } else {
+                    p.ty()
+                };
+                if with_names {
+                    format!(", a{k}: {ty}")
+                } else {
+                    format!(", {ty}")
+                }
             })
             .collect();
         let ret = match self.ret {
@@ -238,7 +306,9 @@ impl TraitCase {
         };
         match self.asy {
             Asy::Sync => format!("fn m{g}({}{params}){ret}", self.recv_decl()),
-            Asy::AsyncFn | Asy::AsyncTrait => format!("async fn m{g}({}{params}){ret}", self.recv_decl()),
+            Asy::AsyncFn | Asy::AsyncTrait => {
+                format!("async fn m{g}({}{params}){ret}", self.recv_decl())
+            }
             Asy::ImplFuture => format!(
                 "fn m{g}({}{params}) -> impl std::future::Future<Output = {}>",
                 self.recv_decl(),
@@ -252,7 +322,11 @@ impl TraitCase {
         let mut s = tag.to_string();
         for (k, p) in self.params.iter().enumerate() {
             s.push('|');
-            s.push_str(&if matcher_view { p.matcher_debug(k) } else { p.arg(k).2 });
+            s.push_str(&if matcher_view {
+                p.matcher_debug(k)
+            } else {
+                p.arg(k).2
+            });
         }
         s
     }
@@ -308,8 +382,16 @@ pub fn block_on<F: std::future::Future>(f: F) -> F::Output {
 fn body_of_answer(c: &TraitCase, self_name: &str) -> String {
     // logs, mutates &mut params, returns an injective function of the arguments
     let mut s = String::new();
-    let fmt: String = std::iter::once("A".to_string()).chain(c.params.iter().map(|_| "{:?}".to_string())).collect::<Vec<_>>().join("|");
-    let args: String = c.params.iter().enumerate().map(|(k, _)| format!(", a{k}")).collect();
+    let fmt: String = std::iter::once("A".to_string())
+        .chain(c.params.iter().map(|_| "{:?}".to_string()))
+        .collect::<Vec<_>>()
+        .join("|");
+    let args: String = c
+        .params
+        .iter()
+        .enumerate()
+        .map(|(k, _)| format!(", a{k}"))
+        .collect();
     s.push_str(&format!("        let s = format!(\"{fmt}\"{args});\n        log(s.clone());\n        let h = fnv(&s);\n"));
     for (k, p) in c.params.iter().enumerate() {
         match p {
@@ -337,29 +419,59 @@ fn body_of_answer(c: &TraitCase, self_name: &str) -> String {
 pub fn source(c: &TraitCase) -> String {
     let n = c.params.len();
     let tg = c.trait_generic();
-    let trait_generics = if tg { "<G: 'static + std::fmt::Debug + Clone>" } else { "" };
+    let trait_generics = if tg {
+        "<G: 'static + std::fmt::Debug + Clone>"
+    } else {
+        ""
+    };
     let trait_args = if tg { "<u16>" } else { "" };
-    let sized = if matches!(c.recv, Recv::Value) { ": Sized" } else { "" };
+    let sized = if matches!(c.recv, Recv::Value) {
+        ": Sized"
+    } else {
+        ""
+    };
     let mut s = String::new();
     s.push_str("static LOG: Mutex<Vec<String>> = Mutex::new(Vec::new());\nfn log(s: String) { LOG.lock().unwrap().push(s) }\nfn take() -> Vec<String> { std::mem::take(&mut *LOG.lock().unwrap()) }\n\n");
     // attribute
     let total = c.before + 1 + c.after + c.twin as usize;
     let attr = match c.api {
         Api::Module => "api=M".to_string(),
-        Api::Flattened => format!("api=[{}]", (0..total).map(|i| format!("F{i}")).collect::<Vec<_>>().join(", ")),
+        Api::Flattened => format!(
+            "api=[{}]",
+            (0..total)
+                .map(|i| format!("F{i}"))
+                .collect::<Vec<_>>()
+                .join(", ")
+        ),
         Api::Hidden => format!(
             "unmock_with=[{}]",
-            (0..total).map(|i| if i == c.before { "real_m".to_string() } else { "_".to_string() }).collect::<Vec<_>>().join(", ")
+            (0..total)
+                .map(|i| if i == c.before {
+                    "real_m".to_string()
+                } else {
+                    "_".to_string()
+                })
+                .collect::<Vec<_>>()
+                .join(", ")
         ),
     };
-    let async_trait_attr = if c.asy == Asy::AsyncTrait { "#[::async_trait::async_trait]\n" } else { "" };
-    s.push_str(&format!("#[unimock({attr})]\n{async_trait_attr}pub trait Tr{trait_generics}{sized} {{\n"));
+    let async_trait_attr = if c.asy == Asy::AsyncTrait {
+        "#[::async_trait::async_trait]\n"
+    } else {
+        ""
+    };
+    s.push_str(&format!(
+        "#[unimock({attr})]\n{async_trait_attr}pub trait Tr{trait_generics}{sized} {{\n"
+    ));
     for i in 0..c.before {
         s.push_str(&format!("    fn other_b{i}(&self, x: u8) -> u8;\n"));
     }
     s.push_str(&format!("    {};\n", c.method_sig(true)));
     if c.twin {
-        s.push_str(&format!("    {};\n", c.method_sig(true).replacen("fn m", "fn m_twin", 1)));
+        s.push_str(&format!(
+            "    {};\n",
+            c.method_sig(true).replacen("fn m", "fn m_twin", 1)
+        ));
     }
     for i in 0..c.after {
         s.push_str(&format!("    fn other_a{i}(&self, x: u8) -> u8;\n"));
@@ -371,13 +483,21 @@ pub fn source(c: &TraitCase) -> String {
         if matches!(c.ret, Ret::RefParam(_)) {
             generics.push("'a");
         }
-        let g = if generics.is_empty() { String::new() } else { format!("<{}>", generics.join(", ")) };
+        let g = if generics.is_empty() {
+            String::new()
+        } else {
+            format!("<{}>", generics.join(", "))
+        };
         let params: String = c
             .params
             .iter()
             .enumerate()
             .map(|(k, p)| {
-                let ty = if matches!(c.ret, Ret::RefParam(j) if j == k) { "&'a u32" } else { p.ty() };
+                let ty = if matches!(c.ret, Ret::RefParam(j) if j == k) {
+                    "&'a u32"
+                } else {
+                    p.ty()
+                };
                 format!(", a{k}: {ty}")
             })
             .collect();
@@ -422,19 +542,39 @@ pub fn source(c: &TraitCase) -> String {
             }
         }
     }
-    let with_types = if type_args.is_empty() { String::new() } else { format!(".with_types::<{}>()", type_args.join(", ")) };
+    let with_types = if type_args.is_empty() {
+        String::new()
+    } else {
+        format!(".with_types::<{}>()", type_args.join(", "))
+    };
     let self_name = "u_";
     if c.api != Api::Hidden {
         let pat = match n {
             0 => "_".to_string(),
             1 => "a0".to_string(),
-            _ => format!("({})", (0..n).map(|k| format!("a{k}")).collect::<Vec<_>>().join(", ")),
+            _ => format!(
+                "({})",
+                (0..n)
+                    .map(|k| format!("a{k}"))
+                    .collect::<Vec<_>>()
+                    .join(", ")
+            ),
         };
-        let fmt: String = std::iter::once("M".to_string()).chain(c.params.iter().map(|_| "{:?}".to_string())).collect::<Vec<_>>().join("|");
+        let fmt: String = std::iter::once("M".to_string())
+            .chain(c.params.iter().map(|_| "{:?}".to_string()))
+            .collect::<Vec<_>>()
+            .join("|");
         let fargs: String = (0..n).map(|k| format!(", a{k}")).collect();
         let closure_params: String = (0..n).map(|k| format!(", a{k}")).collect();
-        let answer = format!("|{self_name}{closure_params}| {{\n{}    }}", body_of_answer(c, self_name));
-        let install = if c.arc { format!(".answers_arc(Arc::new({answer}))") } else { format!(".answers(&{answer})") };
+        let answer = format!(
+            "|{self_name}{closure_params}| {{\n{}    }}",
+            body_of_answer(c, self_name)
+        );
+        let install = if c.arc {
+            format!(".answers_arc(Arc::new({answer}))")
+        } else {
+            format!(".answers(&{answer})")
+        };
         s.push_str(&format!(
             "    let clause = {mock_fn}{with_types}\n        .each_call(&|m| m.func(|{pat}, _| {{ log(format!(\"{fmt}\"{fargs})); true }}))\n        {install};\n"
         ));
@@ -443,24 +583,53 @@ pub fn source(c: &TraitCase) -> String {
         s.push_str("    let mut u = Unimock::new_partial(()).no_verify_in_drop();\n");
     }
     let method_targs = if c.method_generic() { "::<i64>" } else { "" };
-    let call = |recv: &str| format!("<Unimock as Tr{trait_args}>::m{method_targs}({recv}{})", arg_exprs.iter().map(|e| format!(", {e}")).collect::<String>());
+    let call = |recv: &str| {
+        format!(
+            "<Unimock as Tr{trait_args}>::m{method_targs}({recv}{})",
+            arg_exprs
+                .iter()
+                .map(|e| format!(", {e}"))
+                .collect::<String>()
+        )
+    };
     let mut lazy = "n/a".to_string();
     let _ = &mut lazy;
     if c.asy == Asy::Sync {
-        s.push_str(&format!("    let r = {};\n    let ret = format!(\"{{:?}}\", r);\n", call(c.recv_expr())));
+        s.push_str(&format!(
+            "    let r = {};\n    let ret = format!(\"{{:?}}\", r);\n",
+            call(c.recv_expr())
+        ));
         s.push_str("    let lazy = \"n/a\".to_string();\n");
     } else if matches!(c.recv, Recv::Ref | Recv::Mut | Recv::PinMut) {
         // laziness: create + drop the future unpolled, nothing may have been evaluated
-        s.push_str(&format!("    {{ let fut = {}; drop(fut); }}\n", call(c.recv_expr())));
+        s.push_str(&format!(
+            "    {{ let fut = {}; drop(fut); }}\n",
+            call(c.recv_expr())
+        ));
         s.push_str("    let lazy = format!(\"{}\", take().len());\n");
         // undo possible mutation effects are impossible here: nothing ran
-        s.push_str(&format!("    let r = block_on({});\n    let ret = format!(\"{{:?}}\", r);\n", call(c.recv_expr())));
+        s.push_str(&format!(
+            "    let r = block_on({});\n    let ret = format!(\"{{:?}}\", r);\n",
+            call(c.recv_expr())
+        ));
     } else {
         s.push_str("    let lazy = \"n/a\".to_string();\n");
-        s.push_str(&format!("    let r = block_on({});\n    let ret = format!(\"{{:?}}\", r);\n", call(c.recv_expr())));
+        s.push_str(&format!(
+            "    let r = block_on({});\n    let ret = format!(\"{{:?}}\", r);\n",
+            call(c.recv_expr())
+        ));
     }
-    let muts: Vec<String> = c.params.iter().enumerate().filter(|(_, p)| p.is_mut()).map(|(k, _)| format!("format!(\"{{:?}}\", m{k})")).collect();
-    s.push_str(&format!("    let muts: Vec<String> = vec![{}];\n", muts.join(", ")));
+    let muts: Vec<String> = c
+        .params
+        .iter()
+        .enumerate()
+        .filter(|(_, p)| p.is_mut())
+        .map(|(k, _)| format!("format!(\"{{:?}}\", m{k})"))
+        .collect();
+    s.push_str(&format!(
+        "    let muts: Vec<String> = vec![{}];\n",
+        muts.join(", ")
+    ));
     s.push_str("    let logv = take();\n");
     s.push_str("    format!(\"{}\\u{1}{}\\u{1}{}\\u{1}{}\", logv.join(\"\\u{2}\"), ret, muts.join(\"\\u{2}\"), lazy)\n}\n");
     s
@@ -471,8 +640,16 @@ pub fn judge(c: &TraitCase, line: &str) -> Result<CaseInfo, String> {
     if parts.len() != 4 {
         return Err(format!("HARNESS: malformed output {line:?}"));
     }
-    let log: Vec<&str> = if parts[0].is_empty() { vec![] } else { parts[0].split('\u{2}').collect() };
-    let muts: Vec<&str> = if parts[2].is_empty() { vec![] } else { parts[2].split('\u{2}').collect() };
+    let log: Vec<&str> = if parts[0].is_empty() {
+        vec![]
+    } else {
+        parts[0].split('\u{2}').collect()
+    };
+    let muts: Vec<&str> = if parts[2].is_empty() {
+        vec![]
+    } else {
+        parts[2].split('\u{2}').collect()
+    };
     let mut expected_log = vec![];
     if c.api != Api::Hidden {
         expected_log.push(c.arg_string("M", true));
@@ -485,18 +662,33 @@ pub fn judge(c: &TraitCase, line: &str) -> Result<CaseInfo, String> {
         ));
     }
     if parts[1] != c.expected_ret() {
-        return Err(format!("`{sig}`: the call returned {}, the answer produced {}", parts[1], c.expected_ret()));
+        return Err(format!(
+            "`{sig}`: the call returned {}, the answer produced {}",
+            parts[1],
+            c.expected_ret()
+        ));
     }
     let em = c.expected_muts();
     if muts != em.iter().map(|s| s.as_str()).collect::<Vec<_>>() {
-        return Err(format!("`{sig}`: caller's &mut variables are {muts:?} after the call, the answer wrote {em:?}"));
+        return Err(format!(
+            "`{sig}`: caller's &mut variables are {muts:?} after the call, the answer wrote {em:?}"
+        ));
     }
     if parts[3] != "n/a" && parts[3] != "0" {
-        return Err(format!("`{sig}`: {} evaluation steps ran although the future was dropped unpolled", parts[3]));
+        return Err(format!(
+            "`{sig}`: {} evaluation steps ran although the future was dropped unpolled",
+            parts[3]
+        ));
     }
     let n = c.params.len();
     let nt = n >= 2
-        || c.params.iter().any(|p| p.is_mut() || matches!(p, Param::TraitGeneric | Param::MethodGeneric | Param::ImplTrait))
+        || c.params.iter().any(|p| {
+            p.is_mut()
+                || matches!(
+                    p,
+                    Param::TraitGeneric | Param::MethodGeneric | Param::ImplTrait
+                )
+        })
         || c.recv != Recv::Ref
         || c.asy != Asy::Sync;
     let adjacent_same = c.params.windows(2).any(|w| w[0] == w[1]);
@@ -629,23 +821,48 @@ pub fn case_strategy() -> impl Strategy<Value = TraitCase> {
 pub const RULE: &str = "programs = generated #[unimock] traits: receiver {&self, &mut self, self, Rc<Self>, Arc<Self>, Pin<&mut Self>, Box<Self>} x 0-5 parameters from {u8, i32, &str, String, Vec<u8>, &u32, &[u8], &mut u32, &mut Vec<u8>, &mut &'static str, (u8,String), Option<&u32>, trait-level generic, method-level generic, impl Trait} with adjacent parameters often sharing a type x return {unit, u32, String, &u32 from self, &'a u32 from a parameter, generic} x {sync, async fn, -> impl Future} x api {module, flattened, hidden via unmock_with} x position of the method among 0-2 other methods; pairwise distinct argument values. Non-trivial = arity >= 2, or a &mut / generic / impl-Trait parameter, or a receiver other than &self, or async; distinct = distinct shape";
 
 fn spec<'a>() -> Spec<'a, TraitCase> {
-    Spec { project: "C05", prelude: PRELUDE, source: &source, judge: &judge, nbins: 16, max_shrink_steps: 30, extra_deps: "async-trait = \"0.1\"\n" }
+    Spec {
+        project: "C05",
+        prelude: PRELUDE,
+        source: &source,
+        judge: &judge,
+        nbins: 16,
+        max_shrink_steps: 30,
+        extra_deps: "async-trait = \"0.1\"\n",
+    }
 }
 
 pub fn run(ctx: &Ctx) -> Verdict {
     let mut v = Verdict::new("exploration", RULE);
     v.explanation = "The generated program installs a matcher that logs the argument tuple it sees and an answer function that logs its arguments, writes value-dependent data through every &mut parameter and returns an injective function of the arguments; the generator knows the Debug strings it wrote and compares both logs (declaration order), the return value, the caller's &mut variables and, for async shapes, that nothing ran before the first poll / without a poll.".into();
     v.assumptions = vec![
-        "shapes rustc rejects are outside the property's domain (counted; > 5% = inconclusive)".into(),
-        "hidden-api shapes are observed through a recording unmock_with function in a partial mock".into(),
+        "shapes rustc rejects are outside the property's domain (counted; > 5% = inconclusive)"
+            .into(),
+        "hidden-api shapes are observed through a recording unmock_with function in a partial mock"
+            .into(),
     ];
-    v.subs.push(crate::replay_corpus(ctx, &|sub, case| replay(sub, case)));
+    v.subs
+        .push(crate::replay_corpus(ctx, &|sub, case| replay(sub, case)));
     let n = ctx.tier.pick(1600, 32_000) as usize;
     let batches = n.div_ceil(1600);
     for b in 0..batches {
-        let sub = if batches == 1 { "shapes".to_string() } else { format!("shapes-{b}") };
-        v.subs.push(e2::run(ctx, &sub, case_strategy(), (n / batches).max(1), &spec()));
-        if v.subs.last().map(|s| s.failure.is_some() || s.inconclusive.is_some()).unwrap_or(false) {
+        let sub = if batches == 1 {
+            "shapes".to_string()
+        } else {
+            format!("shapes-{b}")
+        };
+        v.subs.push(e2::run(
+            ctx,
+            &sub,
+            case_strategy(),
+            (n / batches).max(1),
+            &spec(),
+        ));
+        if v.subs
+            .last()
+            .map(|s| s.failure.is_some() || s.inconclusive.is_some())
+            .unwrap_or(false)
+        {
             break;
         }
     }
@@ -653,7 +870,8 @@ pub fn run(ctx: &Ctx) -> Verdict {
 }
 
 pub fn replay(_sub: &str, case: Value) -> Result<(), String> {
-    let c: TraitCase = serde_json::from_value(case).map_err(|e| format!("HARNESS: bad case: {e}"))?;
+    let c: TraitCase =
+        serde_json::from_value(case).map_err(|e| format!("HARNESS: bad case: {e}"))?;
     match e2::run_single(&spec(), &c) {
         Ok(r) => r.map(|_| ()),
         Err(e) => Err(format!("HARNESS: {e}")),
